@@ -26,7 +26,7 @@ var leafKinds = []string{"bool", "int", "int8", "int16", "int32", "int64", "uint
 
 var namedLeaf = []string{"MyInt", "MyInt8", "MyUint16", "MyFloat", "MyFloat32", "MyString", "MyBool", "MyBytes", "MyInts", "MyStrMap", "MyArr", "MyU8", "JSer", "JSer"}
 
-var namedStructs = []string{"Inner", "Unexp", "Tagged", "FirstOmit", "Emb", "EmbPtr", "EmbTagged", "EmbNonStruct", "EmbUnexp", "Node", "Times", "Anys", "Mixed", "Opts"}
+var namedStructs = []string{"Inner", "Unexp", "Tagged", "FirstOmit", "Emb", "EmbPtr", "EmbTagged", "EmbNonStruct", "EmbUnexp", "Node", "Times", "Anys", "Mixed", "Opts", "LeadOmit"}
 
 // map key types accepted by checkShowJS/checkShowJSON: string and Bool..Complex128 kinds.
 // (uintptr keys are left out: the renderer's toString lacks the case, a defect owned by C09.)
@@ -447,6 +447,10 @@ func (g *gen) genValue(t reflect.Type, depth int) any {
 			n = 1 + r.Intn(4)
 			if t.Elem().Kind() == reflect.Uint8 && r.Intn(3) == 0 {
 				n = r.Intn(40)
+			}
+			if t.Elem().Kind() == reflect.Uint8 && r.Intn(12) == 0 {
+				// a length at a Base64 / buffer boundary (up to 4098 in the random sweep)
+				return bytesDesc(byteBoundaryLens[r.Intn(len(byteBoundaryLens)-5)])
 			}
 		}
 		l := make([]any, n)
